@@ -19,8 +19,25 @@ func namePool() []tname {
 		"Foo::Bar::Foo::Bar::Car", "Nope", "MyAlias", "myalias", "::Car", "Foo::a", "Foo::A::B"} {
 		ns = append(ns, tn("type", s))
 	}
+	ns = append(ns, addNames()...)
 	ns = append(ns, tname{1, "type", "Car"}, tname{1, "x", "a"}, tname{1, "type", "Foo::Car"}, tname{0, "x", "Foo::a"}, tname{0, "function", "Foo::Car"},
 		tname{0, "x", "Foo::Bar::a"})
+	return ns
+}
+
+// addNames: the names px.AddTypes binds for the declarations of addDecls (and a few case variants)
+func addNames() []tname {
+	ns := []tname{}
+	for _, s := range []string{"Foo::Zed", "foo::zed", "Foo::Car", "Foo::Bus", "FOO::BUS", "Foo::Bar::Car", "Foo::Bar::A", "Foo::Bar", "A", "A::B", "A::Sub", "A::Sub::X", "a::sub::x", "A::Sub::Y",
+		"A::Aa", "Foo::Nope", "Foo::Other", "Foo", "Car", "Bus", "X", "Sub::X"} {
+		ns = append(ns, tn("type", s))
+	}
+	for _, s := range []string{"Foo::Bus", "foo::bus", "A::Sub::X", "A::Aa", "Foo::Nope", "Car", "Foo::Car", "Foo::Zed", "Bus", "X"} {
+		ns = append(ns, tn("constructor", s))
+	}
+	for _, s := range []string{"Foo::Bus", "Bus", "foo::bus", "A::Sub::X", "Sub::X", "X", "A::Aa", "Car", "Foo::Car"} {
+		ns = append(ns, tn("allocator", s))
+	}
 	return ns
 }
 
@@ -40,6 +57,7 @@ func newDep() opT                   { return opT{Kind: "NewDep"} }
 func addType(l int, v int) opT {
 	return opT{Kind: "AddType", L: l, N: tn("type", vtable[v].v.(interface{ Name() string }).Name()), V: v}
 }
+func addTypes(l int, items ...int) opT { return opT{Kind: "AddTypes", L: l, A: items} }
 func seq(ops ...opT) []opT        { return ops }
 func cat(a []opT, b ...opT) []opT { return append(append([]opT{}, a...), b...) }
 func allPred() predT              { return predT{"All", ""} }
@@ -95,6 +113,30 @@ func (r *runner) corpus() {
 		cat(chain, addType(2, 11), load(3, tn("type", "myalias")), addType(2, 11), addType(3, 12), load(3, tn("type", "Foo::Car")), addType(2, 8), load(3, tn("type", "Integer")),
 			addType(2, 10), discover(3, nsPred("type"))),
 		seq(newDep(), newParented(1), newTypeSet(2, 0), addType(3, 11), load(3, tn("type", "MyAlias")), getEntry(2, tn("type", "MyAlias")), addType(3, 12), load(3, tn("type", "Foo::Car"))),
+		// px.AddTypes of a type set / an object type: members, constructors, nested sets; after earlier misses (seeded change C12-m1);
+		// members a parent or the loader itself already knows are not added again; the set's name is write-once
+		cat(chain, addTypes(2, 0), load(3, tn("type", "Foo::Bus")), load(2, tn("constructor", "foo::bus")), load(3, tn("type", "Foo")), load(1, tn("type", "Foo::Zed")),
+			discover(3, allPred()), getEntry(2, tn("type", "Foo::Car")), addTypes(2, 0), addTypes(3, 0), getEntry(3, tn("type", "Foo::Car")), getEntry(3, tn("type", "Foo")), discover(3, allPred())),
+		cat(chain, load(2, tn("type", "Foo::Bus")), has(2, tn("type", "Foo::Bus")), addTypes(2, 0), load(2, tn("type", "Foo::Bus")), has(2, tn("type", "Foo::Bus")), load(2, tn("type", "foo::bus")),
+			load(2, tn("constructor", "Foo::Bus")), getEntry(2, tn("type", "Foo::Bus"))),
+		cat(chain, load(3, tn("type", "Foo::Zed")), load(3, tn("constructor", "Foo::Bus")), loadEntry(3, tn("type", "Foo::Car")), addTypes(3, 0), load(3, tn("type", "Foo::Zed")),
+			load(3, tn("constructor", "Foo::Bus")), load(3, tn("type", "Foo::Car")), load(2, tn("type", "Foo::Zed")), discover(3, nsPred("constructor"))),
+		cat(chain, load(3, tn("type", "Foo::Zed")), addTypes(2, 0), load(3, tn("type", "Foo::Zed")), getEntry(3, tn("type", "Foo::Zed")), getEntry(2, tn("type", "Foo::Zed"))),
+		cat(chain, load(2, tn("type", "A::Sub::X")), load(2, tn("type", "A::Sub")), load(2, tn("constructor", "A::Sub::X")), load(2, tn("type", "A")), addTypes(2, 2), load(2, tn("type", "A::Sub::X")),
+			load(2, tn("type", "A::Sub")), load(2, tn("constructor", "A::Sub::X")), load(2, tn("type", "A")), load(2, tn("type", "A::Sub::Y")), load(2, tn("constructor", "A::Aa")),
+			discover(2, allPred())),
+		cat(chain, def(2, tn("type", "Foo::Car"), 8), def(1, tn("type", "Foo::Zed"), 10), addTypes(3, 0), load(3, tn("type", "Foo::Car")), load(3, tn("type", "Foo::Zed")), load(3, tn("type", "Foo::Bus")),
+			getEntry(3, tn("type", "Foo::Car")), getEntry(3, tn("type", "Foo::Zed")), discover(3, nsPred("type"))),
+		cat(chain, addTypes(2, 0), addTypes(2, 3), load(2, tn("type", "Foo::Nope")), load(2, tn("type", "Foo::Car")), addTypes(2, 4), load(2, tn("type", "Foo::Other")), load(2, tn("type", "Foo")),
+			addTypes(3, 4), load(3, tn("type", "Foo")), getEntry(3, tn("type", "Foo"))),
+		cat(chain, def(2, tn("constructor", "Foo::Bus"), 0), addTypes(2, 0), load(2, tn("type", "Foo::Bus")), load(2, tn("type", "Foo::Zed")), load(2, tn("type", "Foo")), load(2, tn("constructor", "Foo::Bus"))),
+		cat(chain, load(2, tn("type", "Car")), load(2, tn("constructor", "Car")), addTypes(2, 5), load(2, tn("type", "Car")), load(2, tn("constructor", "car")), addTypes(2, 5), addTypes(3, 5),
+			getEntry(3, tn("constructor", "Car")), addTypes(2, 100+8, 6, 0, 100+11), load(3, tn("type", "Foo::Bus")), load(3, tn("type", "MyAlias")), load(3, tn("type", "Integer")), load(3, tn("type", "Foo::Zed"))),
+		cat(chain, addTypes(2, 0), addTypes(2, 7), addTypes(2, 6), load(2, tn("type", "Foo::Car")), load(2, tn("constructor", "Foo::Car")), addTypes(1, 7), load(2, tn("type", "Foo::Car")),
+			load(2, tn("constructor", "Foo::Car")), addTypes(9, 0)),
+		seq(newDep(), newParented(1), newTypeSet(2, 0), load(3, tn("type", "Foo::Bus")), load(3, tn("type", "Foo::Foo::Bus")), addTypes(3, 0), load(3, tn("type", "Foo::Bus")), load(3, tn("type", "Foo::Foo::Bus")),
+			getEntry(2, tn("type", "Foo::Bus")), getEntry(2, tn("type", "Foo::Zed")), addTypes(3, 1), load(3, tn("type", "Foo::Bar::Car")), load(3, tn("type", "Bar::Car")), discover(3, allPred()), discover(2, allPred())),
+		seq(newParented(0), fork(1), load(2, tn("type", "Foo::Bus")), addTypes(2, 0, 5), load(2, tn("type", "Foo::Bus")), load(2, tn("type", "Car")), load(1, tn("type", "Foo::Bus")), discover(2, nameLower("foo::bus"))),
 		// load-entry / get-entry distinguish an absent entry from a cached miss; both are misses
 		cat(chain, loadEntry(3, a), getEntry(3, a), load(3, a), getEntry(3, a), loadEntry(3, a), getEntry(1, a), getEntry(2, a)),
 	}
@@ -113,20 +155,27 @@ type shape struct {
 	names   []tname
 	vals    []int
 	preds   []predT
+	adds    [][]int // AddTypes argument lists of the alphabet
 }
 
 func shapes() []shape {
 	return []shape{
 		{"fresh-chain", 0, true, seq(newDep(), newParented(1), newParented(2)), []int{1, 2, 3}, []tname{tn("x", "a"), tn("x", "A"), tn("x", "b")}, []int{0, 1},
-			[]predT{allPred()}},
+			[]predT{allPred()}, nil},
 		{"static-chain", 1, true, seq(newParented(0), fork(1)), []int{1, 2}, []tname{tn("type", "Integer"), tn("type", "integer"), tn("x", "a")}, []int{8, 10},
-			[]predT{nsPred("x"), nameLower("integer")}},
+			[]predT{nsPred("x"), nameLower("integer")}, nil},
 		{"typeset-leaf", 0, true, seq(newDep(), newParented(1), newTypeSet(2, 0)), []int{2, 3}, []tname{tn("type", "Car"), tn("type", "foo::car"), tn("type", "Foo::Nope"), tn("type", "nope")},
-			[]int{8, 10}, []predT{allPred()}},
+			[]int{8, 10}, []predT{allPred()}, nil},
 		{"typeset-inner", 0, false, seq(newDep(), newTypeSet(1, 0), newParented(2)), []int{1, 2, 3}, []tname{tn("type", "car"), tn("type", "Foo::Car"), tn("type", "b")}, []int{4, 5},
-			[]predT{allPred()}},
+			[]predT{allPred()}, nil},
 		{"eq-values", 0, false, seq(newDep(), newParented(1)), []int{1, 2}, []tname{tn("x", "a"), tn("type", "A")}, []int{4, 5, 6, 8, 9},
-			[]predT{allPred()}},
+			[]predT{allPred()}, nil},
+		// px.AddTypes of a type set (members, object member with constructor) and of an object type, between lookups and
+		// definitions of the names they bind
+		{"addtypes-chain", 0, false, seq(newDep(), newParented(1), newParented(2)), []int{2, 3},
+			[]tname{tn("type", "Foo::Bus"), tn("constructor", "foo::bus"), tn("type", "Foo::Zed"), tn("type", "Foo")}, []int{10}, []predT{allPred()}, [][]int{{0}, {6}, {4}}},
+		{"addtypes-nested", 1, true, seq(newDep(), newParented(1), newTypeSet(2, 2)), []int{2, 3},
+			[]tname{tn("type", "A::Sub::X"), tn("type", "A::Sub"), tn("constructor", "A::Sub::X"), tn("type", "A::B"), tn("type", "Sub::X")}, []int{8}, []predT{allPred()}, [][]int{{2}, {2, 5}}},
 	}
 }
 
@@ -140,6 +189,9 @@ func (s shape) alphabet() []opT {
 			// the side-effect free queries (has, get-entry, discover) are not part of the alphabet: the
 			// observers appended to every history ask all of them, and every prefix is enumerated too
 			al = append(al, load(l, n), loadEntry(l, n))
+		}
+		for _, a := range s.adds {
+			al = append(al, addTypes(l, a...))
 		}
 	}
 	return al
@@ -226,12 +278,34 @@ func randomHistory(r *lib.Rng, n int) []opT {
 	target := []int{0}     // the loader that receives definitions made through loader l (type-set loaders define into their parent)
 	static := []bool{true} // rooted at the static loader: Discover predicates are kept selective (167 core entries)
 	// a few hot names so that histories revisit the same entries
-	hot := []tname{}
-	for i := 0; i < 4; i++ {
-		hot = append(hot, pool[r.Intn(len(pool))])
-	}
 	vals := []int{0, 1, 2, 3, 4, 5, 6, 7, 8, 9, 10, 11, 12}
 	aliasVals := []int{8, 10, 11, 12}
+	hot := []tname{}
+	// one history in three revolves around the names px.AddTypes binds
+	focus := r.Chance(1, 3)
+	an := addNames()
+	for i := 0; i < 4; i++ {
+		if focus {
+			hot = append(hot, an[r.Intn(len(an))])
+		} else {
+			hot = append(hot, pool[r.Intn(len(pool))])
+		}
+	}
+	addItems := func() []int {
+		k := 1
+		if r.Chance(1, 4) {
+			k = 2 + r.Intn(2)
+		}
+		items := make([]int, k)
+		for i := range items {
+			if r.Chance(1, 5) {
+				items[i] = 100 + aliasVals[r.Intn(len(aliasVals))]
+			} else {
+				items[i] = r.Intn(len(addDecls))
+			}
+		}
+		return items
+	}
 	pick := func() tname {
 		if r.Chance(3, 4) {
 			return hot[r.Intn(len(hot))]
@@ -280,10 +354,12 @@ func randomHistory(r *lib.Rng, n int) []opT {
 			continue
 		}
 		switch {
-		case x < 36:
+		case x < 34 && !focus, x < 26:
 			ops = append(ops, def(l, pick(), vals[r.Intn(len(vals))]))
-		case x < 40:
+		case x < 36 && !focus, x < 29:
 			ops = append(ops, addType(l, aliasVals[r.Intn(len(aliasVals))]))
+		case x < 40 && !focus, x < 46:
+			ops = append(ops, addTypes(l, addItems()...))
 		case x < 62:
 			ops = append(ops, load(l, pick()))
 		case x < 70:
